@@ -306,6 +306,10 @@ func runConformant(c *h.Ctx, bucket string, g *gsender, mode int) specRep {
 	// generator sanity against the spec: every event accepted, same messages (Go arithmetic), same flag
 	c.Eq("spec.vs_generator", in, fmt.Sprintf("%s %d/%d noext=%v", h.Trunc(joinMsgs(g.msgs), 400), len(g.tr), len(g.tr), !g.extDelta),
 		fmt.Sprintf("%s %d/%d noext=%v", h.Trunc(s.msgs, 400), s.accepted, s.total, s.noExt))
+	if c.Evaluations%16 == 0 {
+		// the oracle's one-pass reply against the very definitions the theorems use
+		c.Eq("spec.defs", in, fmt.Sprintf("%s 1 %s %s %s", s.msgs, b01(s.noExt), b01(s.ends), b01(s.strict)), c.O.Call("rtmp.spec.defs", trS))
+	}
 	got, status, inChunk := implRead(c, s.wire, mode, s.nmsgs+2)
 	ok := got == s.msgs && status == "err-eof"
 	if s.noExt {
@@ -692,8 +696,8 @@ func c02(c *h.Ctx) {
 	}
 
 	lap("sweep.cid")
-	// bounded-exhaustive: one chunk stream, depth 2 (full alphabet) and 3 (length class rotating);
-	// thorough: depth 3 full, depth 4 rotating
+	// bounded-exhaustive: one chunk stream, depth 2 (full alphabet) and 3 (length class and chunk size
+	// rotating); thorough: depth 3 full (chunk size rotating), depth 4 rotating
 	rot := 0
 	runSame := func(d int, fullLen bool, chunks []int) {
 		enumerate(d, fullLen, func(ms []msgSpec) {
@@ -719,9 +723,24 @@ func c02(c *h.Ctx) {
 	}
 	lap("exhaustive.same depth 2")
 	if c.Thorough() {
-		runSame(3, true, c02Chunks)
+		// depth 3 over the full alphabet (chunk size rotating), depth 4 with the length class rotating too
 		rr := 0
+		enumerate(3, true, func(ms []msgSpec) {
+			rr++
+			runSameOne(c, r, ms, c02Chunks[rr%4], &rot, nextMode())
+		})
+		lap("exhaustive.same depth 3")
 		enumerate(4, false, func(ms []msgSpec) {
+			// at most one extended delta per depth-4 trace (the K2 bucket is covered at depth 2 and 3)
+			next := 0
+			for _, m := range ms[1:] {
+				if (m.fmt == 1 || m.fmt == 2) && c02Ts[m.tsClass] >= 0xFFFFFF {
+					next++
+				}
+			}
+			if next > 1 {
+				return
+			}
 			rr++
 			runSameOne(c, r, ms, c02Chunks[rr%4], &rot, nextMode())
 		})
@@ -762,7 +781,7 @@ func c02(c *h.Ctx) {
 	lap("exhaustive.two_streams")
 	// long random traces, up to 40 interleaved chunk streams, Set Chunk Size in between;
 	// rule-breaking mutations and a malformed stream derived from them
-	nrand := c.N(300, 12000)
+	nrand := c.N(300, 3000)
 	for i := 0; i < nrand; i++ {
 		ns := 1 + r.Intn(6)
 		if r.Chance(35) {
